@@ -1,15 +1,110 @@
 -------------------------------- MODULE MC_Doc --------------------------------
-EXTENDS DocBuilder, Universe, Parser, Json
-VARIABLE doc
-Init == doc = Empty
-Next == doc' \in {T \in Ext(doc, MaxDepth) : DocSize(T) <= MaxSize}
-Spec == Init /\ [][Next]_doc
-AllowedVec(S) == [i \in 1..NValues |-> Allowed(S, Values[i])]
-CallVec(e) == [i \in 1..NValues |-> Call(e, Values[i])]
+(***************************************************************************)
+(* Bounded instance of the document family.                                *)
+(*  - state: the document under construction (DocBuilder)                  *)
+(*  - in every state, both layers are evaluated against the whole value    *)
+(*    universe: the reference (Allowed, R_Cxx) and the implementation      *)
+(*    model (Parse, Call);                                                 *)
+(*  - the model-level verdict of each property is exported with the state  *)
+(*    (m01, m04, ... = value indices where the MODEL violates R_Cxx), so a *)
+(*    design-level counter-example never stops the enumeration;            *)
+(*  - one JSON line per distinct state is printed for the replay.          *)
+(***************************************************************************)
+EXTENDS DocBuilder, Universe, Parser, Props, Json
+
+CONSTANTS WithUnsupported     \* C20: also insert unsupported keywords
+
+VARIABLES doc, budget      \* budget = insertions still allowed (bounds the artefact)
+vars == <<doc, budget>>
+Init == doc = Empty /\ budget = MaxSize
+
+Spend == budget > 0 /\ budget' = budget - 1
+AddLeaf == Spend /\ doc' \in {T \in LeafExt(doc) : LeafOK(T)}
+AddSub  == Spend /\ MaxDepth > 0 /\ doc' \in NewSubExt(doc)
+AddDeep == Spend /\ MaxDepth > 0 /\
+           doc' \in Ext(doc, MaxDepth) \ (LeafExt(doc) \cup NewSubExt(doc))
+AddUnsupported == Spend /\ WithUnsupported /\ doc' \in UnsExt(doc, MaxDepth)
+Next == AddLeaf \/ AddSub \/ AddDeep \/ AddUnsupported
+Spec == Init /\ [][Next]_vars
+
+(* random walk for -simulate: one random position, then any extension there *)
+SimNext == /\ Spend
+           /\ LET p == RandomElement(Paths(doc, MaxDepth))
+              IN doc' \in ExtAt(doc, p, MaxDepth)
+SimSpec == Init /\ [][SimNext]_vars
+
+(***************************************************************************)
+(* Interaction-rich seed documents: the same builder actions are also      *)
+(* explored from these (INIT InitSeeds, bounded by TLCGet("level")), so    *)
+(* that the neighbourhoods where several keywords interact (declared x     *)
+(* pattern x additional properties, tuple items x additionalItems x        *)
+(* contains, composition with siblings, objects under anyOf) are covered   *)
+(* exhaustively one or two insertions deep even in the quick tier.         *)
+(***************************************************************************)
+CONSTANT SeedLevels
+LOCAL Sch(r) == [sch |-> TRUE] @@ r
+LOCAL Ty(t) == [sch |-> TRUE, type |-> t]
+Seeds == {
+  Sch([properties |-> << <<"a", Sch([default |-> JInt(1)])>>, <<"class", Ty("string")>> >>,
+       patternProperties |-> << <<"^a", Ty("integer")>> >>,
+       additionalProperties |-> FalseS]),
+  Sch([type |-> "object", title |-> "T",
+       properties |-> << <<"a", Ty("integer")>>, <<"b", Sch([default |-> JStr("x")])>> >>,
+       required |-> <<"a", "b">>]),
+  Sch([itemsT |-> << Ty("integer"), Ty("string") >>, additionalItems |-> FalseS,
+       contains |-> Sch([const |-> JInt(1)])]),
+  Sch([type |-> "integer",
+       oneOf |-> << Sch([minimum |-> JInt(1)]), Sch([maximum |-> JInt(2)]) >>,
+       anyOf |-> << Sch([multipleOf |-> JInt(2)]), Sch([const |-> JInt(3)]) >>])
+    @@ ("not" :> Sch([const |-> JInt(4)])),
+  Sch([anyOf |-> <<
+         Sch([type |-> "object", properties |-> << <<"a", Ty("string")>> >>, required |-> <<"a">>]),
+         Sch([type |-> "object",
+              properties |-> << <<"a", Ty("integer")>>, <<"b", Empty>> >>]) >>]),
+  Sch([types |-> <<"object", "null">>,
+       properties |-> << <<"a", Sch([types |-> <<"integer", "number">>])>> >>,
+       depsL |-> << <<"a", <<"b">> >> >>,
+       depsS |-> << <<"b", Sch([required |-> <<"a">>])>> >>]),
+  Sch([type |-> "array", items |-> Sch([type |-> "number", default |-> JInt(0)]),
+       uniqueItems |-> TRUE, default |-> JArr(<<JInt(1)>>)]),
+  Sch([properties |-> << <<"a", Sch([type |-> "object", title |-> "T",
+                                     properties |-> << <<"class", Sch([default |-> JBool(FALSE)])>> >>])>> >>,
+       propertyNames |-> Sch([pattern |-> "^a"])])
+}
+InitSeeds == doc \in Seeds /\ budget = SeedLevels
+SeedSpec == InitSeeds /\ [][Next]_vars
+
+Idx == 1..NValues
+DefaultedProps(S) ==
+  IF DefaultsApply(S)
+  THEN SelectSeq(S.properties, LAMBDA p : ~IsBoolSchema(p[2]) /\ Has(p[2], "default"))
+  ELSE <<>>
 Export ==
-  LET e == Parse(doc)
-  IN PrintT(ToJson([doc |-> doc, allowed |-> AllowedVec(doc), size |-> DocSize(doc),
-                    parse |-> IF IsErr(e) THEN e.name ELSE "ok",
-                    calls |-> IF IsErr(e) THEN <<>> ELSE CallVec(e)]))
+  LET e  == Parse(doc)
+      ok == ~IsErr(e)
+      calls == IF ok THEN [i \in Idx |-> Call(e, Values[i])] ELSE <<>>
+      allowed == [i \in Idx |-> Allowed(doc, Values[i])]
+      dps == DefaultedProps(doc)
+      dobs == IF ok THEN [j \in 1..Len(dps) |-> << dps[j][1], Call(Parse(dps[j][2]), dps[j][2].default) >>]
+              ELSE <<>>
+      np  == IF ok THEN Call(e, NP) ELSE Reject
+      edef == IF ok THEN DefaultOf(e) ELSE NP
+      dconv == IF ok /\ ~IsNP(edef) THEN Call(e, edef) ELSE Reject
+      m01 == IF ok THEN {i \in Idx : ~R_C01(doc, Values[i], calls[i].kind)} ELSE {}
+      m04 == IF ok THEN {i \in Idx : ~R_C04(doc, Values[i], calls[i].kind, calls[i].out)} ELSE {}
+      m05 == IF ok THEN {i \in Idx : ~R_C05_obj(doc, Values[i], calls[i].kind, calls[i].out, dobs)}
+             ELSE {}
+      m05np == ok /\ ~R_C05_np(doc, edef, np, dconv)
+      m10 == IF ok THEN {i \in Idx : ~R_C10_call(calls[i].kind)} ELSE {}
+      pk == IF ok THEN "ok" ELSE e.name
+      st == Strip(doc)
+      se == Parse(st)
+  IN PrintT(ToJson([doc |-> doc, size |-> DocSize(doc), depth |-> SchemaDepth(doc),
+                    parse |-> pk, uns |-> HasUnsupported(doc),
+                    strip |-> st, stripParse |-> IF IsErr(se) THEN se.name ELSE "ok",
+                    allowed |-> allowed, calls |-> calls, np |-> np, dobs |-> dobs,
+                    dconv |-> dconv, edef |-> edef,
+                    m01 |-> m01, m04 |-> m04, m05 |-> m05, m05np |-> m05np, m10 |-> m10,
+                    m20 |-> ~R_C20(doc, pk) \/ IsErr(se)]))
 Inv == Export
 =============================================================================
